@@ -42,7 +42,9 @@ sys.stdout.write("\n@@RESULT@@" + json.dumps(res))
 
 def plan(tier, seed):
     q = tier == "quick"
-    return dict(tasks=pool.batches("history", 42 if q else 500, 1, tier=tier), nworkers=14, time_cap=85 if q else 880, timeout=240, max_samples=2)
+    # a fresh process costs 4-6 CPU-seconds (imports + astroid warm-up): the quick tier takes fresh references for
+    # 4 requests per history, the thorough tier for all of them under 4 hash seeds
+    return dict(tasks=pool.batches("history", 12 if q else 400, 1, tier=tier), nworkers=12, time_cap=80 if q else 880, timeout=300, max_samples=2)
 
 
 def worker_init():
@@ -100,15 +102,23 @@ def gen_case(task, i):
     # make sure every request occurs and the first block alternates
     order = list(range(len(P))) + order
     hs = [0, r.randrange(1, 1000)] + ([r.randrange(1000, 2000), r.randrange(2000, 3000)] if task.get("tier") == "thorough" else [])
-    return dict(pool=P, order=order, hashseeds=hs, stream=task["stream"])
+    fresh_for = list(range(len(P)))
+    if task.get("tier") != "thorough":
+        fresh_for = sorted(r.sample(fresh_for, min(3, len(fresh_for))))
+    return dict(pool=P, order=order, hashseeds=hs, fresh_for=fresh_for, stream=task["stream"])
 
 
 def fresh(req, hashseed):
-    env = dict(os.environ, PYTHONHASHSEED=str(hashseed), PYTHONDONTWRITEBYTECODE="1")
+    env = dict(os.environ, PYTHONHASHSEED=str(hashseed))
     env.pop("PYTRAPIC_VERIF", None)
+    env.pop("PYTHONDONTWRITEBYTECODE", None)
+    if os.environ.get("VERIF_PYCACHE"):
+        env["PYTHONPYCACHEPREFIX"] = os.environ["VERIF_PYCACHE"]
+    else:
+        env["PYTHONDONTWRITEBYTECODE"] = "1"
     for attempt in range(3):
         try:
-            p = subprocess.run([PYTHON, "-B", "-c", FRESH % str(REPO_SRC)], input=json.dumps(dict(src=req["src"], opts=req["opts"])), capture_output=True, text=True, env=env, timeout=120)
+            p = subprocess.run([PYTHON, "-c", FRESH % str(REPO_SRC)], input=json.dumps(dict(src=req["src"], opts=req["opts"])), capture_output=True, text=True, env=env, timeout=120)
         except subprocess.TimeoutExpired:
             return dict(_fresh_failed="timeout")
         out = p.stdout
@@ -181,6 +191,8 @@ def check_case(case):
     # fresh-process references
     if not vio:
         for k, (pos, res) in first.items():
+            if k not in case.get("fresh_for", list(range(len(P)))):
+                continue
             req = P[k]
             refs = []
             for h in case["hashseeds"]:
@@ -233,6 +245,6 @@ def run_case(task, i):
 
 def finish(agg, tier):
     c = agg["counters"]
-    if c.get("compared_with_first", 0) < 300 or c.get("compared_with_fresh", 0) < 100:
+    if c.get("compared_with_first", 0) < 200 or c.get("compared_with_fresh", 0) < 20:
         return dict(inconclusive=f"history checker saw too little: {dict(c)}")
     return None
